@@ -284,3 +284,94 @@ class CollectViolations:
             reveal(gv, rest, dedup_blocks, rule_id) and \
             collect(db_dup_hashes(storage._cache.db), storage._cache.db, rule_id, config) == \
             violations + gv(rest, dedup_blocks, rule_id) + collect(rest0, storage._cache.db, rule_id, config)
+
+
+# ------------------------------------------------------------------ property lemmas: grouping, threshold, mutual references
+@lemma(props=["C03"], types=dict(bs=Blocks, group=Blocks, rule_id=Str, j=Int), name="one-violation-per-group-member")
+def gv_indexing(bs, group, rule_id, j):
+    """Pure: gv yields exactly one violation per block, in order; the j-th one is built for block j."""
+    reveal(gv, bs, group, rule_id)
+    return (len(bs) == 0 or ih(gv_indexing, bs[1:], group, rule_id, j - 1)) and \
+        len(gv(bs, group, rule_id)) == len(bs) and \
+        implies(0 <= j and j < len(bs), gv(bs, group, rule_id)[j] == violation_for(bs[j], group, rule_id))
+
+
+@lemma(props=["C03"], types=dict(conn=ConnT, h=Int, rule_id=Str, config=DRYConfigT, j=Int),
+       name="hash-reported-iff-group-meets-threshold")
+def reported_iff(conn, h, rule_id, config, j):
+    """Property (on the fold that _collect_violations is proved equal to): a duplicate hash contributes violations iff
+    its de-duplicated group has >= min_occurrences(language) members, and then exactly one per member, the j-th one
+    located at member j and built against the whole group (so it names all the others)."""
+    reveal(collect, [h], conn, rule_id, config)
+    reveal(collect, [], conn, rule_id, config)
+    use(gv_indexing, dedup_spec(stored(conn, h)), dedup_spec(stored(conn, h)), rule_id, j)
+    return (len(collect([h], conn, rule_id, config)) > 0) == meets(dedup_spec(stored(conn, h)), config) and \
+        implies(meets(dedup_spec(stored(conn, h)), config),
+                len(collect([h], conn, rule_id, config)) == len(dedup_spec(stored(conn, h)))
+                and implies(0 <= j and j < len(dedup_spec(stored(conn, h))),
+                            collect([h], conn, rule_id, config)[j] ==
+                            violation_for(dedup_spec(stored(conn, h))[j], dedup_spec(stored(conn, h)), rule_id)))
+
+
+@lemma(props=["C03"], types=dict(blocks=Blocks, c1=DRYConfigT, c2=DRYConfigT), name="min-occurrences-monotone")
+def min_occurrences_monotone(blocks, c1, c2):
+    """Lowering every occurrence threshold never un-reports a group (and the threshold test is len >= threshold)."""
+    if len(blocks) == 0 or detect_stat_race(blocks[0].file_path):
+        return True
+    lo = call(VG + "_meets_min_occurrences", mk(GeneratorT), blocks, c1)
+    hi = call(VG + "_meets_min_occurrences", mk(GeneratorT), blocks, c2)
+    lang = detect_language_spec(blocks[0].file_path).lower()
+    return lo == (len(blocks) >= min_occ(c1, lang)) and implies(min_occ(c1, lang) <= min_occ(c2, lang) and hi, lo)
+
+
+@opaque
+def ref_of(b: CodeBlockT) -> Str:
+    """How a block is cited in "Also found in": <path>:<start>-<end>."""
+    return f"{b.file_path}:{b.start_line}-{b.end_line}"
+
+
+@opaque
+def refs_list(l: Blocks) -> SeqOf(Str):
+    """The rendered reference list, as a fold (same list as the comprehension in _get_location_refs)."""
+    if len(l) == 0:
+        return []
+    return [ref_of(l[0])] + refs_list(l[1:])
+
+
+@lemma(props=["C03"], types=dict(l=Blocks), name="reference-list-is-a-fold")
+def refs_list_is_comprehension(l):
+    reveal(refs_list, l)
+    reveal(ref_of, l[0])
+    return (len(l) == 0 or ih(refs_list_is_comprehension, l[1:])) and \
+        [f"{loc.file_path}:{loc.start_line}-{loc.end_line}" for loc in l] == refs_list(l)
+
+
+@lemma(props=["C03"], types=dict(a=Str, r=SeqOf(Str), x=Str), name="str-member-cons")
+def str_member_cons(a, r, x):
+    return (x in [a] + r) == (x == a or x in r)
+
+
+@lemma(props=["C03"], types=dict(l=Blocks, x=CodeBlockT), name="listed-block-is-referenced")
+def listed_block_is_referenced(l, x):
+    """Pure: the reference string of every listed block occurs in the rendered reference list."""
+    reveal(refs_list, l)
+    return (len(l) == 0 or (ih(listed_block_is_referenced, l[1:], x) and use(block_member_head_tail, l, x)
+                            and use(str_member_cons, ref_of(l[0]), refs_list(l[1:]), ref_of(x)))) and \
+        implies(x in l, ref_of(x) in refs_list(l))
+
+
+@lemma(props=["C03"], types=dict(group=Blocks, a=CodeBlockT, b=CodeBlockT), name="references-are-mutual")
+def references_are_mutual(group, a, b):
+    """Property (mutuality): two members of a reported group at different places name each other: b's location is in
+    a's "Also found in" list and a's location is in b's."""
+    if not (a in group and b in group and not same_place(a, b)):
+        return True
+    ra = call(VB + "_get_location_refs", mk(BuilderT), a, group)
+    rb = call(VB + "_get_location_refs", mk(BuilderT), b, group)
+    use(others_is_group_minus_self, group, a, b)
+    use(others_is_group_minus_self, group, b, a)
+    use(listed_block_is_referenced, others(a, group), b)
+    use(listed_block_is_referenced, others(b, group), a)
+    use(refs_list_is_comprehension, others(a, group))
+    use(refs_list_is_comprehension, others(b, group))
+    return ref_of(b) in ra and ref_of(a) in rb
